@@ -137,6 +137,25 @@ func c06Tree(t *core.Trace) []imgEntry {
 		}
 		tree = append(tree, mk(p, sz))
 	}
+	if m := t.I("mode") % 4; m >= 2 && tag%3 == 0 {
+		// names outside Latin-1 on images with a Joliet tree (UCS-2: both bytes of every unit matter)
+		for i, name := range []string{"\u03a9\u03bc\u03ad\u03b3\u03b1.txt", "\u0444\u0430\u0439\u043b-\u0434\u0430\u043d\u043d\u044b\u0445.bin", "\u65e5\u672c\u8a9e\u30d5\u30a1\u30a4\u30eb.dat", "\u0101\u0201\u0301x.d"} {
+			tree = append(tree, mk(name, int64(len(name))+6+int64(i)*300))
+		}
+		tree = append(tree, imgEntry{Path: "\u043a\u0430\u0442\u0430\u043b\u043e\u0433", Dir: true}, mk("\u043a\u0430\u0442\u0430\u043b\u043e\u0433/in.txt", 60))
+	}
+	if t.I("longnames") == 1 && t.I("mode")%4 == 1 {
+		// every name length around the point where a Rock Ridge record reaches the 255 bytes a record can have
+		tree = append(tree, imgEntry{Path: "sweep", Dir: true})
+		for ln := 118; ln <= 146; ln++ {
+			name := fmt.Sprintf("F%03d-", ln) + strings.Repeat("n", ln-5-4) + ".bin"
+			tree = append(tree, mk("sweep/"+name, int64(ln)+20))
+			if ln >= 128 && ln%2 == 0 {
+				dn := fmt.Sprintf("sweep/D%03d-", ln) + strings.Repeat("d", ln-5)
+				tree = append(tree, imgEntry{Path: dn, Dir: true}, mk(dn+"/x.txt", int64(ln)+30))
+			}
+		}
+	}
 	if t.I("collide") == 1 {
 		d := dirs[r.Intn(len(dirs))]
 		for _, name := range isoCollide {
